@@ -114,6 +114,7 @@ class Contract:
         ex = Explorer(self.fuc_name(), timeout_ms=timeout_ms, max_paths=self.max_paths)
         ex.contract = self
         ex.prog = prog
+        ex.interp = interp
         if finfo is None:
             ex.undecided.append(f'function {self.key} not found in the repository')
             return ex, None
